@@ -37,9 +37,9 @@ theorem SvStep.of_eq {n k : N} (hi : k.sv.issued = n.sv.issued) (ht : k.sv.table
   ⟨hi, by rw [ht]; exact List.Sublist.refl _, fun t => by rw [hh]⟩
 
 theorem setClient_sv (n : N) (i : Nat) (c : Client) : (n.setClient i c).sv = n.sv := by
-  unfold N.setClient; split <;> rfl
+  unfold N.setClient; split; rfl; split <;> rfl
 theorem setClient_hist (n : N) (i : Nat) (c : Client) : (n.setClient i c).hist = n.hist := by
-  unfold N.setClient; split <;> rfl
+  unfold N.setClient; split; rfl; split <;> rfl
 theorem setCn_sv (n : N) (w : Who) (c : Cn) : (n.setCn w c).sv = n.sv := by
   unfold N.setCn; cases w <;> simp [setClient_sv]
 theorem setCn_hist (n : N) (w : Who) (c : Cn) : (n.setCn w c).hist = n.hist := by
@@ -113,9 +113,15 @@ theorem SvStep.cnEnter {n m : N} (h : SvStep n m) (cfg : Cfg) (w : Who) : SvStep
   unfold Tbox.C06.Net.cnEnter
   split
   · simp only
-    refine SvStep.push (SvStep.push (SvStep.setCn ?_ _ _) _) _
-    exact h.same rfl rfl
-  · exact h.cnFail cfg w
+    have h0 : SvStep n ({ m with sockFail := m.sockFail - 1 } : N) := h.same rfl rfl
+    split
+    · exact h0.cnFail cfg w
+    · exact h0
+  · split
+    · simp only
+      refine SvStep.push (SvStep.push (SvStep.setCn ?_ _ _) _) _
+      exact h.same rfl rfl
+    · exact h.cnFail cfg w
 
 theorem SvStep.cnStop {n m : N} (h : SvStep n m) (w : Who) : SvStep n (cnStop m w) := by
   unfold Tbox.C06.Net.cnStop; simp only
@@ -193,17 +199,97 @@ theorem SvStep.clStop {n m : N} (h : SvStep n m) (i : Nat) : SvStep n (clStop m 
     · exact ((h.setClient _ _).ev _ (fun _ _ hh => by cases hh))
   · exact h
 
+theorem SvStep.svShut {n m : N} (h : SvStep n m) (t : Nat) : SvStep n (svShut m t).1 := by
+  unfold Tbox.C06.Net.svShut
+  split
+  · exact h
+  · simp only
+    split
+    · split
+      · exact (h.setLink _ _).push _
+      · exact h.setLink _ _
+    · exact h
+
+theorem SvStep.clShut {n m : N} (h : SvStep n m) (i : Nat) : SvStep n (clShut m i).1 := by
+  unfold Tbox.C06.Net.clShut; simp only
+  split
+  · split
+    · split
+      · exact (h.setLink _ _).push _
+      · exact h.setLink _ _
+    · exact h
+  · exact h
+
+theorem SvStep.foldCloseSNow {n : N} (l : List Nat) (k : N) (hk : SvStep n k) :
+    SvStep n (l.foldl (fun n l => n.closeSNow l) k) := by
+  induction l generalizing k with
+  | nil => exact hk
+  | cons e l ih => exact ih _ (hk.closeSNow _)
+
+theorem SvStep.svCleanup {n m : N} (h : SvStep n m) (cfg : Cfg) : SvStep n (svCleanup cfg m) := by
+  unfold Tbox.C06.Net.svCleanup
+  split
+  · exact h
+  · exact (SvStep.foldCloseSNow _ _ (h.svStop cfg)).trans (SvStep.of_eq rfl rfl rfl)
+
+theorem SvStep.clCleanup {n m : N} (h : SvStep n m) (i : Nat) : SvStep n (clCleanup m i) := by
+  unfold Tbox.C06.Net.clCleanup
+  split
+  · exact h
+  · exact ((h.clStop i).cnStop _).setClient _ _
+
+theorem SvStep.knCleanup {n m : N} (h : SvStep n m) : SvStep n (knCleanup m) := by
+  unfold Tbox.C06.Net.knCleanup
+  split
+  · exact h
+  · exact (h.cnStop _).trans (SvStep.of_eq rfl rfl rfl)
+
 theorem SvStep.runAct {n m : N} (h : SvStep n m) (cfg : Cfg) (x : Ctx) (a : Act) : SvStep n (runAct cfg x m a) := by
-  cases a <;> cases x <;> simp only [Tbox.C06.Net.runAct]
-  all_goals first
-    | exact h
-    | exact h.svStop cfg
-    | exact h.clStop _
-    | exact (h.cnStop _).ev _ (fun _ _ hh => by cases hh)
-    | exact h.clStart cfg _
-    | exact h.svDisconnect _
-    | exact h.svSend _ _
-    | exact h.clSend _ _
+  cases a with
+  | stop =>
+      cases x <;> simp only [Tbox.C06.Net.runAct]
+      · exact h.svStop cfg
+      · exact h.clStop _
+      · exact (h.cnStop _).ev _ (fun _ _ hh => by cases hh)
+  | start =>
+      cases x <;> simp only [Tbox.C06.Net.runAct]
+      · exact h
+      · exact h.clStart cfg _
+      · exact h
+  | disc =>
+      cases x <;> simp only [Tbox.C06.Net.runAct]
+      · exact h.svDisconnect _
+      · exact h
+      · exact h
+  | send d =>
+      cases x <;> simp only [Tbox.C06.Net.runAct]
+      · exact h.svSend _ _
+      · exact h.clSend _ _
+      · exact h
+  | more d =>
+      simp only [Tbox.C06.Net.runAct]
+      split
+      · exact h
+      · have h0 : SvStep n ({ m with budget := m.budget - 1 } : N) := h.same rfl rfl
+        cases x <;> simp only
+        · exact h0.svSend _ _
+        · exact h0.clSend _ _
+        · exact h0
+  | shut =>
+      cases x <;> simp only [Tbox.C06.Net.runAct]
+      · exact h.svShut _
+      · exact h.clShut _
+      · exact h
+  | cleanup =>
+      simp only [Tbox.C06.Net.runAct]
+      have h0 : SvStep n (if (!cfg.fix2 && cleanupHits m x) = true then ({ m with uaf := true } : N) else m) := by
+        split
+        · exact h.same rfl rfl
+        · exact h
+      cases x <;> simp only
+      · exact h0.svCleanup cfg
+      · exact h0.clCleanup _
+      · exact h0.knCleanup
 
 theorem SvStep.runScript {n m : N} (h : SvStep n m) (cfg : Cfg) (x : Ctx) (s : Script) :
     SvStep n (runScript cfg x m s) := by
@@ -212,6 +298,12 @@ theorem SvStep.runScript {n m : N} (h : SvStep n m) (cfg : Cfg) (x : Ctx) (s : S
   | nil => exact h
   | cons a s ih => exact ih (h.runAct cfg x a)
 
+
+theorem SvStep.runCb {n m : N} (h : SvStep n m) (cfg : Cfg) (x : Ctx) (w : Nat) (s : Script) :
+    SvStep n (runCb cfg x w m s) := by
+  unfold Tbox.C06.Net.runCb
+  have h0 : SvStep n ({ m with inCb := some (x, w) } : N) := h.same rfl rfl
+  exact (h0.runScript cfg x s).trans (SvStep.of_eq rfl rfl rfl)
 
 /-! ### the server's invariant -/
 
